@@ -987,7 +987,7 @@ func (t *apTr) run(o *out, v *V) {
 }
 
 func engineApiProg(cfg config, o *out) {
-	schemas := loadSchemas()
+	schemas := loadSchemasProg()
 	cc := newClassCov("apiprog")
 	defer cc.emit(o)
 	for _, si := range schemas {
